@@ -229,6 +229,29 @@ theorem completeRun_findings (w : World) (o : Opts) (files : List Nat) (d : Dir)
   · simp only [completeRun, ho, Bool.false_eq_true, if_false, List.append_nil, wholeProgram, hci, h1, List.nil_append]
   · exact ⟨h2.wf, h2.sound, h2.earlyFree⟩
 
+theorem noBuildDirRun_eq (w : World) (o : Opts) (files : List Nat) (ho : o.reportCheckers = false) :
+    noBuildDirRun w o files = files.flatMap (expectedFindings w) ++ w.wp (files.flatMap (expectedInfos w)) := by
+  simp only [noBuildDirRun, ho, Bool.false_eq_true, if_false, List.append_nil]
+  rfl
+
+/-- `fileStep` is the action `fileAction` names -/
+theorem fileStep_action (w : World) (summ : List Nat) (a : Acc) (f : Nat) :
+    (fileAction w a.dir f = .early ∧ ∃ fs, w.early f = some fs ∧ fileStep w summ a f = { a with findings := a.findings ++ fs }) ∨
+    (fileAction w a.dir f = .replay ∧ ∃ e, a.dir.cache f = some e ∧ e.usable (w.hashOf f) = true ∧
+      fileStep w summ a f = { a with findings := a.findings ++ e.items.filterMap Item.finding? }) ∨
+    (fileAction w a.dir f = .analyse ∧ fileStep w summ a f = analysed w summ a f) := by
+  unfold fileStep fileAction
+  cases he : w.early f with
+  | some fs => exact Or.inl ⟨rfl, fs, rfl, rfl⟩
+  | none =>
+    right
+    cases hc : a.dir.cache f with
+    | none => exact Or.inr ⟨rfl, rfl⟩
+    | some e =>
+      cases hu : e.usable (w.hashOf f) with
+      | true => exact Or.inl ⟨by simp [hu], e, rfl, hu, by simp [hu]⟩
+      | false => exact Or.inr ⟨by simp [hu], by simp [hu]; rfl⟩
+
 theorem dirOK_empty (w : World) (files : List Nat) : DirOK w files Dir.empty :=
   ⟨fun f e h => by simp [Dir.empty] at h, fun f _ e h => by simp [Dir.empty] at h, fun f _ _ => rfl⟩
 
